@@ -25,7 +25,7 @@ satisfying assignments; a switched-off component is the identity. -/
 theorem cnfshuffle_end_to_end (env : Env) (argv : List String) (ds : List Draw) (d : Dest) (t : IO.Str)
     (h : cnfshuffleRun env argv ds = .ok d t) (hl : C18.AllLegal env argv ds) (u' : Bool) :
     ∃ st s u n F G fl vp cp,
-      parse shuffleSpec (act env) argv {} = .ok st ∧ inputOf env st = some (.text s, u, n) ∧
+      parse shuffleSpec (act env) argv {} = .ok st ∧ inputOf env st = (.text s, u, n) ∧
       C06.Denotes (lex u s) F ∧ C06.Denotes (lex u' t) G ∧
       C18.LegalDraws st F ds fl vp cp ∧ Valid F fl vp cp ∧ shuffle F fl vp cp = .ok G ∧
       G.nvars = F.nvars ∧ G.clauses.length = F.clauses.length ∧
@@ -44,7 +44,7 @@ theorem cnfshuffle_end_to_end (env : Env) (argv : List String) (ds : List Draw) 
 
 /-- with all three components switched off nothing is drawn and the formula read is written unchanged -/
 theorem shuffleBody_all_off (env : Env) (st : Args) (ds : List Draw) (s : IO.Str) (u : Bool) (n : String) (F : CNF)
-    (hin : inputOf env st = some (.text s, u, n)) (hF : readDimacsText u s = .ok F)
+    (hin : inputOf env st = (.text s, u, n)) (hF : readDimacsText u s = .ok F)
     (hp : st.noFlips = true) (hv : st.noVperm = true) (hc : st.noCperm = true) :
     shuffleBody env st ds = writeOut st F (C18.shuffleHdr env n) := by
   have hwf := (C18.read_wf_printable u s F hF).1
@@ -60,24 +60,20 @@ formula the input text denotes, and read back as exactly that formula -/
 theorem cnfshuffle_switches_identity (env : Env) (argv : List String) (ds : List Draw) (d : Dest) (t : IO.Str)
     (h : cnfshuffleRun env argv ds = .ok d t) (st : Args) (hst : parse shuffleSpec (act env) argv {} = .ok st)
     (hp : st.noFlips = true) (hv : st.noVperm = true) (hc : st.noCperm = true) (u' : Bool) :
-    ∃ s u n F, inputOf env st = some (.text s, u, n) ∧ C06.Denotes (lex u s) F ∧
+    ∃ s u n F, inputOf env st = (.text s, u, n) ∧ C06.Denotes (lex u s) F ∧
       t = renderDimacsText F (if st.verbose then some (toIOHeader (C18.shuffleHdr env n)) else none) none ∧
       readDimacsText u' t = .ok F := by
   unfold cnfshuffleRun at h
   rw [hst] at h
   simp only at h
-  rcases C18.shuffleBody_cases env st ds with ⟨_, hb⟩ | ⟨u, n, _, hb⟩ | ⟨u, n, _, hb⟩ | ⟨s, u, n, _, _, hb⟩ |
-      ⟨s, u, n, F, hi, hF, _⟩
+  rcases C18.shuffleBody_cases env st ds with ⟨u, n, _, hb⟩ | ⟨u, n, _, hb⟩ | ⟨s, u, n, _, _, hb⟩ | ⟨s, u, n, F, hi, hF, _⟩
   · rw [hb] at h; cases h
   · rw [hb] at h; cases h
   · rw [hb] at h; cases h
-  · rw [hb] at h; cases h
-  · rw [shuffleBody_all_off env st ds s u n F hi hF hp hv hc] at h
-    rcases writeOut_cases st F (C18.shuffleHdr env n) with ⟨_, hx⟩ | ⟨d', _, hx⟩
-    · rw [hx] at h; cases h
-    · rw [hx] at h; cases h
-      obtain ⟨hwf, hpr⟩ := C18.read_wf_printable u s F hF
-      exact ⟨s, u, n, F, hi, C06.reader_sound _ F hF, rfl, (C18.written_text_readable F _ hwf hpr u').1⟩
+  · rw [shuffleBody_all_off env st ds s u n F hi hF hp hv hc, writeOut_eq] at h
+    cases h
+    obtain ⟨hwf, hpr⟩ := C18.read_wf_printable u s F hF
+    exact ⟨s, u, n, F, hi, C06.reader_sound _ F hF, rfl, (C18.written_text_readable F _ hwf hpr u').1⟩
 
 /-! ### each switch token does exactly its own assignment (for every rest of the command line) -/
 
@@ -85,8 +81,8 @@ theorem cnfshuffle_switches_identity (env : Env) (argv : List String) (ds : List
 def runFrom (env : Env) (st0 : Args) (argv : List String) (ds : List Draw) : Cli.Tools.Outcome :=
   match parse shuffleSpec (act env) argv st0 with
   | .error .help => .help
-  | .error .error => .cliError .parser ""
-  | .error (.sub _ _ _ _) => .cliError .parser ""
+  | .error .error => .cliError .parser "c "
+  | .error (.sub _ _ _ _) => .cliError .parser "c "
   | .ok st => shuffleBody env st ds
 
 theorem run_eq_runFrom (env : Env) (argv : List String) (ds : List Draw) :
@@ -139,7 +135,7 @@ theorem cnfshuffle_pvc (env : Env) (s : IO.Str) (hs : env.stdin = .text s) (ds :
     cnfshuffleRun env ["-p", "-v", "-c"] ds =
       match readDimacsText env.stdinUniversal s with
       | .ok F => .ok .stdout (renderDimacsText F (some (toIOHeader (C18.shuffleHdr env env.stdinName))) none)
-      | .error _ => .cliError .reader "" := by
+      | .error _ => .cliError .reader "c " := by
   rw [run_eq_runFrom, (switch_token_p env _ _ ds).1, (switch_token_v env _ _ ds).1, (switch_token_c env _ _ ds).1]
   have hparse : parse shuffleSpec (act env) [] ({ noFlips := true, noVperm := true, noCperm := true } : Args) =
       .ok { noFlips := true, noVperm := true, noCperm := true } := rfl
@@ -147,7 +143,7 @@ theorem cnfshuffle_pvc (env : Env) (s : IO.Str) (hs : env.stdin = .text s) (ds :
   rw [hparse]
   simp only
   have hin : inputOf env ({ noFlips := true, noVperm := true, noCperm := true } : Args) =
-      some (.text s, env.stdinUniversal, env.stdinName) := by simp [inputOf, hs]
+      (.text s, env.stdinUniversal, env.stdinName) := by simp [inputOf, hs]
   cases hF : readDimacsText env.stdinUniversal s with
   | ok F =>
     rw [shuffleBody_all_off env _ ds s _ _ F hin hF rfl rfl rfl]
